@@ -67,6 +67,30 @@ class _Future(Future):
         return super().exception(timeout=0)
 
 
+def _boundary(x, depth=0):
+    '''what crossing a process boundary does to a value: containers and arrays arrive as unpickled copies.  Functions (the harness passes lambdas, which a real
+    pool could not carry) and other objects are left as they are; tuples / lists / dicts are walked.'''
+    import pickle
+    import numpy as _np
+    try:
+        from static_frame.core.container import ContainerBase as _CB
+    except Exception:   # pragma: no cover
+        _CB = ()
+    if isinstance(x, _np.ndarray) or (_CB and isinstance(x, _CB)):
+        try:
+            return pickle.loads(pickle.dumps(x))
+        except Exception:
+            return x
+    if depth < 4:
+        if type(x) is tuple:
+            return tuple(_boundary(v, depth + 1) for v in x)
+        if type(x) is list:
+            return [_boundary(v, depth + 1) for v in x]
+        if type(x) is dict:
+            return {k: _boundary(v, depth + 1) for k, v in x.items()}
+    return x
+
+
 def _run_chunk(fn, chunk):
     return [fn(*args) for args in chunk]
 
@@ -104,7 +128,10 @@ class ScheduledExecutor(Executor):
         SEQ[0] += 1
         t.future._sched_seq = SEQ[0]
         try:
-            r = t.fn(*t.args, **t.kwargs)
+            if self.kind == 'process':
+                r = _boundary(t.fn(*_boundary(t.args), **_boundary(t.kwargs)))
+            else:
+                r = t.fn(*t.args, **t.kwargs)
         except BaseException as e:
             t.done = True
             t.future.set_exception(e)
